@@ -411,6 +411,58 @@ func literalInputValue(value ast.Value) interface{} {
 	return nil
 }
 
+// literalInputValueFor is literalInputValue with the expected type in hand:
+// an Int literal in an ID position is handed over as its text, because ID
+// keeps the digits as written ("-0", "9223372036854775808") while a number
+// sent as a variable would be re-formatted ("0", "9.223372036854776e+18").
+func literalInputValueFor(value ast.Value, expected Input) interface{} {
+	if nn, ok := expected.(*NonNull); ok {
+		if in, ok := nn.OfType.(Input); ok {
+			return literalInputValueFor(value, in)
+		}
+		return literalInputValue(value)
+	}
+	switch t := expected.(type) {
+	case *List:
+		in, ok := t.OfType.(Input)
+		if !ok {
+			break
+		}
+		if lv, ok := value.(*ast.ListValue); ok {
+			out := make([]interface{}, 0, len(lv.Values))
+			for _, item := range lv.Values {
+				out = append(out, literalInputValueFor(item, in))
+			}
+			return out
+		}
+		// a single item in a list position is coerced as a list of one
+		return literalInputValueFor(value, in)
+	case *InputObject:
+		ov, ok := value.(*ast.ObjectValue)
+		if !ok {
+			break
+		}
+		fields := t.Fields()
+		out := map[string]interface{}{}
+		for _, f := range ov.Fields {
+			if f == nil || f.Name == nil {
+				continue
+			}
+			if fd, ok := fields[f.Name.Value]; ok && fd != nil {
+				out[f.Name.Value] = literalInputValueFor(f.Value, fd.Type)
+			} else {
+				out[f.Name.Value] = literalInputValue(f.Value)
+			}
+		}
+		return out
+	case *Scalar:
+		if iv, ok := value.(*ast.IntValue); ok && t == ID {
+			return iv.Value
+		}
+	}
+	return literalInputValue(value)
+}
+
 func (c *normCtx) nextName() string {
 	for {
 		n := fmt.Sprintf("__pcv%d", c.counter)
@@ -541,7 +593,7 @@ func (c *normCtx) tryExtract(value ast.Value, expected Input) (ast.Value, bool) 
 	// Hand the literal over in its input (uncoerced) form: the synthetic
 	// variable goes through variable coercion at execute time, which would
 	// otherwise see enum internal values or parse a custom scalar twice.
-	c.synthArgs[name] = literalInputValue(value)
+	c.synthArgs[name] = literalInputValueFor(value, expected)
 	c.newVarDefs = append(c.newVarDefs, ast.NewVariableDefinition(&ast.VariableDefinition{
 		Variable: ast.NewVariable(&ast.Variable{Name: ast.NewName(&ast.Name{Value: name})}),
 		Type:     typeASTFromGoType(expected),
